@@ -277,3 +277,38 @@ def c15(ck):
                "compression types; seeded arbitrary strings for the no-panic part; non-trivial = distinct texts "
                "whose name contains '-' or which carry an epoch")
     ck.finish()
+
+
+# ------------------------------------------------------------------------------------ C17
+TRACE_MODULE["C17"] = "Trace_C17"
+
+
+@prop("C17")
+def c17(ck):
+    binary = vlib.build_harness()
+    ck.add_tlc(vlib.mc("MC_BuilderArgs", "MC_BuilderArgs.cfg", ck.scratch, workers=4))
+    thorough = ck.tier == "thorough"
+    def to_panic(e):
+        e["outcome"] = "panic"
+    def must_err_ok(e):
+        e["dest"] = [47, 97, 47, 46, 46]      # "/a/.." reported as built successfully
+        e.pop("i", None)
+        e["outcome"] = "ok"
+    events = stateless_check(
+        ck, binary, "c17", "Trace_C17",
+        ["--maxlen", 7 if thorough else 6, "--capstok", 4 if thorough else 3, "--meta", 3000 if thorough else 300],
+        [("Dest", to_panic), ("Dest", must_err_ok), ("Level", to_panic), ("CapsArg", to_panic)],
+        lambda e, r: (f"Dest:{s_(e['dest'])}" if e["event"] == "Dest" else
+                      f"Level:{e['kind']}:{e['level']}" if e["event"] == "Level" else
+                      f"CapsArg:{s_(e['text'])}" if e["event"] == "CapsArg" else f"{e['event']}:{e.get('fields')}") if e else "?",
+        sample_kinds=("Dest", "Level", "CapsArg", "Meta"))
+    ck.evaluations = len(events)
+    ck.nontrivial = len({(e["event"], json.dumps(e.get("dest", e.get("text", [e.get("kind"), e.get("level")]))))
+                         for e in events if e["outcome"] == "err"})
+    ck.extra["outcomes"] = {f"{k}:{o}": sum(1 for e in events if e["event"] == k and e["outcome"] == o)
+                            for k in ("Dest", "CapsArg", "Level", "Meta") for o in ("ok", "err")}
+    ck.rule = ("all destination strings over {/ . a b} up to length 6 (7 thorough) plus longer hostile ones; all "
+               "capability texts of <= 3 (4) tokens through FileOptions::caps + build; every compression type with "
+               "levels across and beyond its range (one child process per case); seeded metadata strings; "
+               "non-trivial = distinct arguments that must be / were rejected with an error")
+    ck.finish()
